@@ -129,12 +129,14 @@ PROPS = {
         'not_decided': ['the real stat/readlink/MD5 (assumed models)', 'the symlink readlink path content'],
     },
     'C14': {
-        'units': ['prefix'],
-        'level': 'other',
+        'units': ['stale', 'prefix'],
         'design_ref': 'DESIGN.md section 4, C14',
-        'claim': 'pathIsPrefixedByPath agrees with the component-wise prefix specification taken from the property statement (one trailing '
-                 'separator of the root ignored) -- BOUNDED: all pairs of strings of length <= 6 over all byte values',
-        'not_decided': ['StaleFileRemovalCommand::execute and computeFilesToDelete (not under contract at this commit)', 'strings longer than the bound',
+        'claim': 'StaleFileRemovalCommand::execute (proved, lists of at most 4 stale files / 3 roots as separate objects, loops closed by invariants): only elements of '
+                 'filesToDelete are ever passed to remove(); the k-th stale file is removed iff no roots are configured or it is absolute and '
+                 'pathIsPrefixedByPath(file, root) holds for some configured root; nothing is removed without a prior stale-file-removal result; the '
+                 'result recorded is always built from the CURRENT expected-output list.  pathIsPrefixedByPath agrees with the component-wise prefix '
+                 'specification of the property statement (one trailing separator of the root ignored) -- BOUNDED: all pairs of strings of length <= 6',
+        'not_decided': ['computeFilesToDelete (std::set / std::set_difference: assumed to compute prior minus expected)', 'pathIsPrefixedByPath on strings longer than the bound',
                         'recursive directory removal (FileSystem::remove)'],
     },
     'C15': {
